@@ -21,16 +21,16 @@ PROPS = {
     "C03": ("exploration", "trace invariant (monotone objective over accepted iterates; a move implies strict decrease) over generated runs with tiny line-search / evaluation budgets",
             "objective closures are pure so recomputed values are the values the solver saw; explored cases only",
             T + "; invariant over the iterate history"),
-    "C04": ("exploration", "message => state implications, budget inequalities and call counts over the generated configuration lattice and restart histories",
+    "C04": ("exploration", "message => state implications, budget inequalities and call counts over the generated configuration lattice and restart histories; targets and tolerances placed one ulp below / on / above attained values; runs whose objective is redefined by an update function",
             "documented message strings are the seven of the docstring/statement; explored histories only",
             T + " over operation histories (restart chains); implication oracle"),
     "C05": ("exploration", "round trip: recompute f,g at every reported x with the harness's own closures (bitwise) and compare counters with the call log, over fresh runs and restart chains",
             "closures are the very functions the solver called and are pure, so bit equality is sound",
             T + "; round-trip oracle + call-log accounting"),
-    "C06": ("exploration", "differential: restarted vs. uninterrupted run at generated/enumerated split points, chains and reduced maxcor",
+    "C06": ("exploration", "differential: restarted vs. uninterrupted run at generated/enumerated split points, chains and reduced maxcor (a differing next iterate is judged only when the reference continuation is insensitive to a 2-ulp perturbation of its checkpoint)",
             "tolerances c*eps*max|chain| for pairs and 1e-7*step for the next iterate (derived in DESIGN C06); restart with a gradient scaler is a recorded known finding",
             T + "; differential oracle against the uninterrupted run"),
-    "C07": ("fault_enumeration", "every callback iteration of every generated run is a crash point: state vs. maxiter=k rerun (bitwise), immutability of retained states, crash (raising objective) + restart vs. uninterrupted run",
+    "C07": ("fault_enumeration", "every callback iteration of every generated run is a crash point: state vs. maxiter=k rerun (bitwise), immutability of retained states, crash (raising objective) + restart vs. uninterrupted run, incl. tight evaluation budgets and crashes after a mid-run memory reset",
             "crash = exception raised by the objective at a drawn later call; explored runs only",
             T + "; crash-point enumeration with differential oracle"),
     "C08": ("exploration", "definition predicate of the generalized Cauchy point with a dense B built independently + independent reference implementation; exhaustive structural patterns for small n, generated cases to n=10, inputs intercepted in real runs",
@@ -54,19 +54,19 @@ PROPS = {
     "C14": ("exploration", "harness-owned schedules: all interleavings of objective calls of two runs on two threads (bounded), nested runs, read-only / integer inputs, iprint x logger; oracle = bitwise equality with the solo run and byte-identical inputs",
             "pre-emption inside numpy kernels is not owned by the harness (sampled only); interleavings are at objective-call granularity",
             "schedule enumeration + " + T + "; differential oracle against the solo run"),
-    "C15": ("exploration", "exhaustive call histories over {fun, grad, fun_and_grad} x 3 points up to a bounded length in every gradient mode + stateful machine with scaling changes and in-place mutation; oracle = fresh evaluation and call-log accounting",
+    "C15": ("exploration", "exhaustive call histories over {fun, grad, fun_and_grad} x 3 points up to a bounded length in every gradient mode (variants: returned array overwritten, scribbling callables, start dtypes, a user call that raises once and is repeated) + stateful machine with scaling changes and in-place mutation; oracle = fresh evaluation and call-log accounting",
             "does not assert a particular cache size (a better cache satisfies the property)",
             "exhaustive enumeration of bounded histories + model-based stateful property testing"),
-    "C16": ("exploration", "finite-difference runs on generated convex problems / benchmarks with bounds active at start and optimum: no exception, stencil inside the box, nfev accounting, value vs. exact-gradient run",
-            "tolerance 1e-6*(1+|f|) from the differencing error bound (DESIGN C16)",
-            T + "; differential oracle against the exact-gradient run"),
+    "C16": ("exploration", "finite-difference runs on generated convex problems / benchmarks with bounds active at start and optimum, optionally preceded by a run with other differencing options: no exception, stencil inside the box, every differencing request equal to scipy approx_derivative called with the requested options (points and gradient), complex-step gradient vs exact gradient, nfev accounting, value vs. exact-gradient run",
+            "tolerance 1e-6*(1+|f|) from the differencing error bound (DESIGN C16); the value clause is judged only where the requested scheme, recomputed independently, resolves the gradient",
+            T + "; differential oracles against scipy.optimize approx_derivative and against the exact-gradient run"),
     "C17": ("exploration", "metamorphic: run with scaler s vs. run on the explicitly scaled objective, bitwise on logs and results; scaler call protocol",
             "bit equality is by construction of the harness (it computes f(x)*s exactly as the wrapper does)",
             T + "; metamorphic oracle"),
     "C18": ("exploration", "invariant over the history: stored pairs are bit-exact differences of logged iterates/gradients in chronological order with s.y>0; dense inverse-BFGS reference for SPD-ness and the diagonal utility",
             "pairs inherited from a checkpoint are compared up to the reconstruction rounding of C06(a)",
             T + "; invariant over the logged history + dense reference model"),
-    "C19": ("exploration", "reference model: 6th-order Richardson derivative of each benchmark function at generated non-integer points in dimensions 1..12",
+    "C19": ("exploration", "reference model: 6th-order Richardson derivative of each benchmark function at generated points in dimensions 1..12 (incl. special coordinate values and non-contiguous / read-only / list inputs)",
             "smoothness away from the excluded neighbourhoods; tolerance 1e-6 relative (measured accuracy 2e-12)",
             T + "; reference-model oracle (high-order numerical derivative)"),
     "C20": ("fault_enumeration", "every call index of every kind of user callable in generated runs is a fault-injection point; oracle = same exception type and message reaches the caller, and an identical fault-free call afterwards equals the baseline bitwise",
